@@ -1,9 +1,9 @@
-"""Registry of engine E5 redissim (harness overlaid into /repo/cmd/nokv-redis)."""
+"""Registry of engine E5 redissim (harness overlaid into /repo/cmd/nokv-redis; see overlay/redis/NOTES.md)."""
 
 ENGINES_ADD = {
     "redissim": {
         "overlay": True, "repo_pkg": "cmd/nokv-redis", "src": "overlay/redis",
-        "kind": "E5: the real Redis gateway (redisServer.handleConn, RESP parser, dispatch, backends) compiled together with the harness into cmd/nokv-redis through go test -overlay, driven over net.Pipe connections inside a synctest bubble",
+        "kind": "E5: the real Redis gateway (redisServer.handleConn, RESP parser, dispatch, embeddedBackend on a real NoKV.DB, raftBackend) compiled together with the harness into cmd/nokv-redis through go test -overlay, driven over net.Pipe connections inside a synctest bubble",
         "real": ["cmd/nokv-redis: redisServer.handleConn/execute/execSet, parseRESP/readLine/expectCRLF, reply writers",
                  "cmd/nokv-redis: main() option construction (captured by running main with a failing listener stub)"],
         "stub": ["net.Listener/TCP (connections are net.Pipe pairs handed to handleConn directly)",
@@ -14,40 +14,40 @@ ENGINES_ADD = {
 E5_ASSUME = [
     "one gateway process, connections are in-memory pipes: TCP segmentation is modelled by explicit fragmentation of the client's writes",
     "a clean batch is evidence, not proof: bounds are small (<= 5 keys, <= a few hundred commands per run)",
+    "options are main.go's except MemTableSize and ValueLogFileSize (1 MiB each) and background compaction switched off",
 ]
 
 PROPS_ADD = {
     "C29": {
         "engine": "redissim", "level": "exploration", "budget": {"quick": 12, "thorough": 600},
         "title": "Redis gateway commands follow Redis semantics",
-        "technique": "deterministic simulation: seeded RESP command sequences (all listed commands, option combinations, int64 limits, non-integers, wrong arities, pipelining, inline form, clock advances) from one client against a reference Redis model",
-        "rule": "case = seeded list of commands over <= 5 keys + fake-clock advances; every reply is compared with the model by kind and payload (error replies by kind, the two INCR-family texts exactly); time-sensitive commands are issued only >= 1 s away from a key's deadline; distinct = distinct event-trace hash; non-trivial = at least 8 compared replies and at least one write command",
+        "technique": "deterministic simulation: seeded RESP command sequences (all listed commands, option combinations, int64 limits, non-integers, wrong arities, pipelining, inline form, clock advances) from one client against a reference Redis model; embedded backend on a real DB, and the raft backend over an ideal store",
+        "rule": "case = seeded list of commands over <= 5 keys + fake-clock advances + backend choice; every reply is compared with the model by kind and payload (error replies by kind, the two INCR-family texts exactly), every key is read once more at the end; time-sensitive commands are issued only >= 1 s away from a key's deadline; distinct = distinct event-trace hash; non-trivial = at least 8 compared replies and at least one write command",
         "level_text": "Seeded search over command sequences with a reference model as oracle. The property quantifies over all sequences, so it can only be sampled; small key spaces and values at the integer limits maximise the density of interesting states.",
-        "note": "Trusted: the reference model in overlay/redis/model_test.go (written from the Redis documentation; syntax the documentation leaves open is not asserted). Embedded backend only; the raft-backed deployment is not exercised by this check.",
+        "note": "Trusted: the reference model in overlay/redis/model_test.go (written from the Redis documentation; syntax the documentation leaves open is not asserted). The raft-backed variant runs the real raftBackend over the harness's ideal single-region percolator store, not over a cluster.",
         "design_ref": "7/C29", "assumptions": E5_ASSUME,
-        "real": ["embeddedBackend on a real NoKV.DB opened with main.go's options"],
+        "real": ["embeddedBackend on a real NoKV.DB opened with main.go's options", "raftBackend (variant backend=1)"],
+        "stub": ["raftstore client + PD TSO (variant backend=1): ideal single-region percolator store of the harness"],
     },
-}
-
-PROPS_ADD["C31"] = {
-    "engine": "redissim", "level": "exploration", "budget": {"quick": 10, "thorough": 600},
-    "title": "The RESP parser is total and allocation-bounded",
-    "technique": "deterministic simulation: seeded byte streams (well-formed array/inline commands, malformed frames, huge and negative declared lengths, truncation) delivered over a pipe with seeded fragmentation, every 2-way split of short streams, pauses and mid-frame EOF, to handleConn (recording stub backend) or to a bare parseRESP loop",
-    "rule": "case = seeded frame list + truncation + delivery plan + mode; per delivery: no panic, handler returns after end of stream, runtime.MemStats.TotalAlloc delta <= 64 x bytes delivered + 64 KiB, replies are well-formed RESP, every leading well-formed command is parsed into exactly the generator's arguments (bare parser: argument lists; handleConn: replies and recorded backend calls); distinct = distinct event-trace hash; non-trivial = the stream contains a malformed/oversized/truncated frame or was delivered in more than one piece",
-    "level_text": "Seeded search over byte streams and fragmentations with a structural oracle. The property quantifies over all byte strings, so it is sampled; frames are built from the grammar's boundary cases rather than from uniform noise.",
-    "note": "Trusted: the client-side RESP decoder of the harness and the TotalAlloc accounting (process-wide counter, read while every other goroutine of the bubble is quiescent). Declared lengths are capped at 2^28 (bulk) and 2^23 (array) so that unfixed code cannot exhaust the machine; raw frames keep longer digit runs only in spellings >= 2^63-1.",
-    "design_ref": "7/C31", "assumptions": E5_ASSUME,
-    "stub": ["redisBackend (recording stub: replies are a pure function of the arguments)"],
-}
-
-PROPS_ADD["C30"] = {
-    "engine": "redissim", "level": "exploration", "budget": {"quick": 10, "thorough": 600},
-    "title": "Concurrent Redis clients never lose updates",
-    "technique": "deterministic simulation: 2-4 connections served by the real handleConn as scheduler tasks issue INCR/INCRBY/DECRBY and SET NX on shared keys; a seeded scheduler interleaves them at backend-call boundaries, at the verifhook yield sites inside the transaction path and, for the raft-backed variant, at every raftClient/TSO call",
-    "rule": "case = per-connection command scripts + configuration (connections, counters, NX keys, backend) + scheduler choice tape; oracle: final GET of every counter = initial value + sum of the deltas of the commands that replied an integer, at most one SET NX per absent key replied OK; distinct = distinct event-trace hash (scheduler decisions included); non-trivial = backend calls of different connections alternated at least twice",
-    "level_text": "Seeded search over interleavings of concurrent client commands. The property quantifies over all schedules; they are sampled at the granularity of the yield sites reachable in the tree, which is stated in the note.",
-    "note": "Granularity: embedded backend - boundaries of each redisBackend call plus every verifhook.Yield site the handler goroutine reaches inside db.Update (watermark/oracle/commit sites as far as /repo has them; with no site between transaction begin and commit an embedded INCR is one atomic step for the scheduler and a lost update cannot be exhibited). Raft-backed variant - the real raftBackend runs over an ideal single-region snapshot-isolation store (harness model of percolator: locks, write conflicts) with a scheduling point at every raftClient/TSO call; it shows what the gateway's own read-then-write logic loses, not what a real cluster adds.",
-    "design_ref": "7/C30", "assumptions": E5_ASSUME + ["yields taken while a goroutine holds the transaction oracle's mutex are passed through unless /repo announces the lock with verifhook.BeforeLock"],
-    "real": ["embeddedBackend on a real NoKV.DB opened with main.go's options", "raftBackend (Get/Set/IncrBy/mutate/lock resolution)"],
-    "stub": ["raftstore client + PD TSO (raft-backed variant): ideal single-region percolator store"],
+    "C30": {
+        "engine": "redissim", "level": "exploration", "budget": {"quick": 10, "thorough": 600},
+        "title": "Concurrent Redis clients never lose updates",
+        "technique": "deterministic simulation: 2-4 connections served by the real handleConn as scheduler tasks issue INCR/INCRBY/DECRBY and SET NX on shared keys; a seeded scheduler interleaves them at backend-call boundaries, at the verifhook yield sites inside the transaction path, at the SUT's own blocking points (WaitForMark, commit wait) and, for the raft-backed variant, at every raftClient/TSO call",
+        "rule": "case = per-connection command scripts + configuration (connections, counters, NX keys, backend) + scheduler choice tape; oracle: final GET of every counter = initial value + sum of the deltas of the commands that replied an integer, at most one SET NX per absent key replied OK; distinct = distinct event-trace hash (scheduler decisions included); non-trivial = backend calls of different connections alternated at least twice",
+        "level_text": "Seeded search over interleavings of concurrent client commands. The property quantifies over all schedules; they are sampled at the granularity of the yield sites reachable in the tree, which is stated in the note.",
+        "note": "Granularity: embedded backend - boundaries of each redisBackend call, every verifhook.Yield site named wm./txn./oracle./orc./db./commit./write. that the handler goroutine reaches inside db.Update (yields under the oracle mutex are passed through unless the tree announces the lock with BeforeLock), and the engine's own blocking points (a command started while another is in its commit window waits in WaitForMark). Raft-backed variant - the real raftBackend over an ideal single-region snapshot-isolation store (harness model of percolator: locks, write conflicts) with a scheduling point at every raftClient/TSO call; it shows what the gateway's own read-then-write logic loses, not what a real cluster adds. The bubble runs on one P (GOMAXPROCS 1) so that tasks woken by the same event run in readying order.",
+        "design_ref": "7/C30", "assumptions": E5_ASSUME,
+        "real": ["embeddedBackend on a real NoKV.DB opened with main.go's options", "raftBackend (Get/Set/IncrBy/mutate/lock resolution)"],
+        "stub": ["raftstore client + PD TSO (raft-backed variant): ideal single-region percolator store of the harness"],
+    },
+    "C31": {
+        "engine": "redissim", "level": "exploration", "budget": {"quick": 10, "thorough": 600},
+        "title": "The RESP parser is total and allocation-bounded",
+        "technique": "deterministic simulation: seeded byte streams (well-formed array/inline commands, malformed frames, huge and negative declared lengths, truncation) delivered over a pipe with seeded fragmentation, every 2-way split of short streams, pauses and mid-frame EOF, to handleConn (recording stub backend) or to a bare parseRESP loop",
+        "rule": "case = seeded frame list + truncation + delivery plan + mode; per delivery: no panic, handler returns after end of stream, runtime.MemStats.TotalAlloc delta <= 64 x bytes delivered + 64 KiB, replies are well-formed RESP, every leading well-formed command is parsed into exactly the generator's arguments (bare parser: argument lists; handleConn: replies and recorded backend calls); distinct = distinct event-trace hash; non-trivial = the stream contains a malformed/oversized/truncated frame or was delivered in more than one piece",
+        "level_text": "Seeded search over byte streams and fragmentations with a structural oracle. The property quantifies over all byte strings, so it is sampled; frames are built from the grammar's boundary cases rather than from uniform noise.",
+        "note": "Trusted: the client-side RESP decoder of the harness and the TotalAlloc accounting (process-wide counter, read while every other goroutine of the bubble is quiescent). Declared lengths are capped at 2^28 (bulk) and 2^23 (array) so that unfixed code cannot exhaust the machine; raw frames keep longer digit runs only in spellings >= 2^63-1. Replies after a stream that ends inside a frame are not asserted.",
+        "design_ref": "7/C31", "assumptions": E5_ASSUME[:2],
+        "stub": ["redisBackend (recording stub: replies are a pure function of the arguments)"],
+    },
 }
